@@ -128,6 +128,7 @@ theorem IncInv.handleSelfUpdate (inc : Nat) (st : St) : Pres (IncInv a g n) (Foc
 theorem IncInv.full : Full E (IncInv a g n) (fun _ => True) (fun _ => True) (fun _ => True) where
   toBase := IncInv.base E a g n
   handleSelfUpdate := IncInv.handleSelfUpdate E a g n
+  inputDown := fun _ _ => trivial
   senderOk := fun _ _ _ _ _ => trivial
   applyOk := fun _ _ _ _ _ _ => trivial
   failedOk := fun _ _ _ _ => trivial
